@@ -27,6 +27,8 @@ import (
 	"go/types"
 	"sort"
 	"strings"
+
+	"golang.org/x/tools/go/packages"
 )
 
 func init() { registerExtra("C03", c03NoStaleReply) }
@@ -43,6 +45,7 @@ func c03NoStaleReply(c *Ctx) {
 	info := pk.TypesInfo
 	par := c.P.Parents(pk)
 	inInput := staticReach(c.P, handle)
+	paramChans, isRecvOf := c03RecvMatcher(c, pk)
 
 	// ---- channels handed over on in the input context
 	handed := map[string]token.Pos{}
@@ -62,6 +65,16 @@ func c03NoStaleReply(c *Ctx) {
 				}
 			}
 			targets, resolved := c03ChanTargets(c, fi, send.Chan, 0)
+			if !resolved {
+				// a hand-over helper that takes the reply channel as a parameter: the fields its call sites bind it to
+				if id, isID := unparen(send.Chan).(*ast.Ident); isID {
+					for ch := range paramChans[info.ObjectOf(id)] {
+						targets = append(targets, ch)
+					}
+					sort.Strings(targets)
+					resolved = len(targets) > 0
+				}
+			}
 			if !resolved {
 				c.undecided("C03.l", fmt.Sprintf("%s/send on %s", fi.Name, c03Short(send.Chan)), send.Pos(), "the channel of a send in the input context cannot be resolved to a field of Vaxis: %s", types.ExprString(send.Chan))
 				continue
@@ -164,55 +177,6 @@ func c03NoStaleReply(c *Ctx) {
 		})
 	}
 
-	// ---- waiters
-	// a query helper may take the reply channel as a parameter (`queryReply(query, vx.chBg)`): the parameter stands
-	// for every channel field some call site of the package binds it to
-	paramChans := map[types.Object]map[string]bool{}
-	for _, fi := range c.P.FuncsIn("vaxis") {
-		if fi.Decl.Body == nil {
-			continue
-		}
-		ast.Inspect(fi.Decl.Body, func(n ast.Node) bool {
-			call, ok := n.(*ast.CallExpr)
-			if !ok {
-				return true
-			}
-			fn := calleeOf(info, call)
-			if fn == nil || fn.Pkg() != pk.Types {
-				return true
-			}
-			sig := fn.Type().(*types.Signature)
-			for i, a := range call.Args {
-				if i >= sig.Params().Len() {
-					break
-				}
-				pv := sig.Params().At(i)
-				if _, isChan := pv.Type().Underlying().(*types.Chan); !isChan {
-					continue
-				}
-				if path := canonPath(info, a); strings.HasPrefix(path, "Vaxis.") {
-					if paramChans[pv] == nil {
-						paramChans[pv] = map[string]bool{}
-					}
-					paramChans[pv][path] = true
-				}
-			}
-			return true
-		})
-	}
-	isRecvOf := func(n ast.Node, ch string) bool {
-		u, ok := n.(*ast.UnaryExpr)
-		if !ok || u.Op != token.ARROW {
-			return false
-		}
-		if canonPath(info, u.X) == ch {
-			return true
-		}
-		if id, isID := unparen(u.X).(*ast.Ident); isID {
-			return paramChans[info.ObjectOf(id)][ch]
-		}
-		return false
-	}
 	// the receive is the comm of a select arm and the select has a default arm
 	inDrainSelect := func(u ast.Node) bool {
 		for cur := par[u]; cur != nil; cur = par[cur] {
@@ -501,4 +465,60 @@ func c03RowField(c *Ctx, fi *FuncInfo, sel *ast.SelectorExpr) ([]ast.Expr, bool)
 		out = append(out, val)
 	}
 	return out, true
+}
+
+// c03RecvMatcher: "n is a receive from the channel field ch of Vaxis". A query helper may take the reply channel as
+// a parameter (`queryReply(query, vx.chBg)`): the parameter stands for every channel field some call site of the
+// package binds it to (paramChans, also returned).
+func c03RecvMatcher(c *Ctx, pk *packages.Package) (map[types.Object]map[string]bool, func(n ast.Node, ch string) bool) {
+	info := pk.TypesInfo
+	// a query helper may take the reply channel as a parameter (`queryReply(query, vx.chBg)`): the parameter stands
+	// for every channel field some call site of the package binds it to
+	paramChans := map[types.Object]map[string]bool{}
+	for _, fi := range c.P.FuncsIn("vaxis") {
+		if fi.Decl.Body == nil {
+			continue
+		}
+		ast.Inspect(fi.Decl.Body, func(n ast.Node) bool {
+			call, ok := n.(*ast.CallExpr)
+			if !ok {
+				return true
+			}
+			fn := calleeOf(info, call)
+			if fn == nil || fn.Pkg() != pk.Types {
+				return true
+			}
+			sig := fn.Type().(*types.Signature)
+			for i, a := range call.Args {
+				if i >= sig.Params().Len() {
+					break
+				}
+				pv := sig.Params().At(i)
+				if _, isChan := pv.Type().Underlying().(*types.Chan); !isChan {
+					continue
+				}
+				if path := canonPath(info, a); strings.HasPrefix(path, "Vaxis.") {
+					if paramChans[pv] == nil {
+						paramChans[pv] = map[string]bool{}
+					}
+					paramChans[pv][path] = true
+				}
+			}
+			return true
+		})
+	}
+	isRecvOf := func(n ast.Node, ch string) bool {
+		u, ok := n.(*ast.UnaryExpr)
+		if !ok || u.Op != token.ARROW {
+			return false
+		}
+		if canonPath(info, u.X) == ch {
+			return true
+		}
+		if id, isID := unparen(u.X).(*ast.Ident); isID {
+			return paramChans[info.ObjectOf(id)][ch]
+		}
+		return false
+	}
+	return paramChans, isRecvOf
 }
